@@ -64,15 +64,19 @@ fn one_case(k: usize, name: &str, text: &str, expect: Option<(Vec<i64>, String)>
         Err(_) => return false,
     };
     let arity = focused.defs.first().map(|d| d.context.bindings.len()).unwrap_or(0);
+    // runnable = the entry point takes integers only (defs[0] is `main` in whole programs; the
+    // front-end test files without `main` start with an ordinary definition that takes a continuation)
+    let runnable = focused.defs.first().map(|d| d.context.bindings.iter().all(|b|
+        b.chi == core_lang::syntax::context::Chirality::Prd && b.ty == core_lang::syntax::Ty::I64)).unwrap_or(false);
     let mut tuples: Vec<Vec<i64>> = Vec::new();
     let mut exp = String::from("none");
     if let Some((a, e)) = expect {
-        if a.len() == arity {
+        if a.len() == arity && runnable {
             exp = format!("(expect {} {})", tuple(&a), sexp::quote(&e));
             tuples.push(a);
         }
     }
-    let extra = if arity == 0 { if tuples.is_empty() { 1 } else { 0 } } else { 3 };
+    let extra = if !runnable { 0 } else if arity == 0 { if tuples.is_empty() { 1 } else { 0 } } else { 3 };
     for _ in 0..extra { tuples.push((0..arity).map(|_| small_arg(rng)).collect()); }
     let input = sexp::dbg(&focused);
     let res = crate::catch(move || sexp::dbg(&core2axcut::program::shrink_prog(focused)));
